@@ -12,8 +12,10 @@ from concurrent.futures import ThreadPoolExecutor, as_completed
 
 VERIF = os.path.dirname(os.path.dirname(os.path.abspath(__file__)))
 REPO = os.environ.get("VERIF_REPO", "/repo")
-EVIDENCE_DIR = os.path.join(VERIF, "evidence")
-REPLAY_DIR = os.path.join(VERIF, "replays")
+# VERIF_OUT / VERIF_KANI_DIR: developer overrides (scratch runs against a patched worktree); unset in registered commands
+_OUT = os.environ.get("VERIF_OUT", VERIF)
+EVIDENCE_DIR = os.path.join(_OUT, "evidence")
+REPLAY_DIR = os.path.join(_OUT, "replays")
 KNOWN = os.path.join(VERIF, "known_findings.txt")
 
 _print_lock = threading.Lock()
